@@ -18,6 +18,8 @@ import time
 import traceback
 import zlib
 
+import torch
+
 VERIF = os.path.dirname(os.path.dirname(os.path.abspath(__file__)))
 if VERIF not in sys.path:
     sys.path.insert(0, VERIF)
@@ -108,6 +110,9 @@ def evaluate_case(sub, case, stats: Stats):
     """Run one case; returns the list of violations it produced."""
     ctx = Ctx(sub.name)
     stats.evaluations += 1
+    # every case is a pure function of its content: random numbers the library draws on its own (initialisations, probe vectors)
+    # come from a generator seeded by the case, never from what an earlier case of the same worker process left behind
+    torch.manual_seed(zlib.crc32(canonical(case).encode()) & 0x7FFFFFFF)
     try:
         sub.run(case, ctx)
     except Reject as e:
@@ -167,11 +172,34 @@ def _hyp_settings(n, shrink):
     )
 
 
+_CONSTANTS_FROZEN = False
+
+
+def _freeze_hypothesis_constants():
+    """Hypothesis (>= 6.131) seeds its generators with constants collected from the *local* modules present in sys.modules (here: /repo's
+    gpytorch and /verif's pbt - thresholds such as -11.3137 get drawn on purpose, which is welcome), re-collecting whenever a module is
+    imported.  Which modules a worker process has imported depends on the tasks it happened to run before, which made runs depend on
+    scheduling.  The pool is therefore computed once per process, after the property module and gpytorch are loaded, and frozen."""
+    global _CONSTANTS_FROZEN
+    if _CONSTANTS_FROZEN:
+        return
+    _CONSTANTS_FROZEN = True
+    try:
+        import gpytorch  # noqa: F401
+        from hypothesis.internal.conjecture import providers as _p
+
+        frozen = _p._get_local_constants()
+        _p._get_local_constants = lambda: frozen
+    except Exception:  # noqa: BLE001  (another Hypothesis version: nothing to freeze)
+        pass
+
+
 def run_task(task: dict) -> dict:
     """One unit of work in a worker process."""
     t0 = time.time()
     try:
         spec = load_property(task["pid"])
+        _freeze_hypothesis_constants()
         sub = next(s for s in spec.subchecks if s.name == task["sub"])
         stats = Stats()
         deadline = task.get("deadline")
